@@ -82,6 +82,7 @@ func ruleStableOrder(p *Prog, l *Ledger, tier string) {
 		}
 		break
 	}
+	sorted = throughLocalCell(sorted)
 	if _, f, _ := loadedField(sorted); f != "Items" {
 		l.Fail(rule, "Subtitles.Order", key, pos, "the sorted slice is not the receiver's Items field")
 		return
@@ -89,7 +90,7 @@ func ruleStableOrder(p *Prog, l *Ledger, tier string) {
 	var less *ssa.Function
 	off := 0 // index of the first index parameter of less
 	isItems := func(v ssa.Value) bool {
-		_, sf, _ := loadedField(v)
+		_, sf, _ := loadedField(throughLocalCell(v))
 		return sf == "Items"
 	}
 	if name == "sort.Stable" {
@@ -549,4 +550,64 @@ func isSwapOfRecv(f *ssa.Function) bool {
 		seen[dst] = true
 	}
 	return seen[0] && seen[1]
+}
+
+// throughLocalCell: v loads a local variable that is assigned exactly once (directly, or as a
+// captured variable inside a closure): the value assigned; otherwise v itself.
+func throughLocalCell(v ssa.Value) ssa.Value {
+	u, ok := v.(*ssa.UnOp)
+	if !ok || u.Op != token.MUL {
+		return v
+	}
+	var cell *ssa.Alloc
+	switch x := u.X.(type) {
+	case *ssa.Alloc:
+		cell = x
+	case *ssa.FreeVar:
+		fn := x.Parent()
+		if fn == nil || fn.Parent() == nil {
+			return v
+		}
+		idx := -1
+		for i, fv := range fn.FreeVars {
+			if fv == x {
+				idx = i
+			}
+		}
+		for _, b := range fn.Parent().Blocks {
+			for _, ins := range b.Instrs {
+				if mc, ok := ins.(*ssa.MakeClosure); ok && mc.Fn == ssa.Value(fn) && idx >= 0 && idx < len(mc.Bindings) {
+					cell, _ = mc.Bindings[idx].(*ssa.Alloc)
+				}
+			}
+		}
+	}
+	if cell == nil {
+		return v
+	}
+	var stored ssa.Value
+	n := 0
+	count := func(name ssa.Value) {
+		for _, r := range *name.Referrers() {
+			if st, ok := r.(*ssa.Store); ok && st.Addr == name {
+				stored = st.Val
+				n++
+			}
+		}
+	}
+	count(cell)
+	for _, r := range *cell.Referrers() {
+		if mc, ok := r.(*ssa.MakeClosure); ok {
+			cf := mc.Fn.(*ssa.Function)
+			for i, bnd := range mc.Bindings {
+				if bnd == ssa.Value(cell) {
+					count(cf.FreeVars[i])
+				}
+			}
+		}
+	}
+	if n == 1 && stored != nil {
+		return stored
+	}
+	return v
 }
